@@ -270,6 +270,80 @@ func c06(repo string, out *fg.Out) error {
 		return fmt.Errorf("rotate: os.OpenFile(newPath, os.O_WRONLY|os.O_CREATE|os.O_APPEND, …) not found")
 	}
 
+	// ---- ownership: AppendRaw / AppendRawWithMeta copy the caller's payload into a freshly made
+	//      entryData and compute the checksum BEFORE tryEnqueue; only entryData is enqueued.
+	for _, fn := range []string{"AppendRaw", "AppendRawWithMeta"} {
+		ff, fd := fg.FindFunc(files, "Writer", fn)
+		madeAt, copyAt, crcAt, enqAt := token.NoPos, token.NoPos, token.NoPos, token.NoPos
+		ast.Inspect(fd.Body, func(n ast.Node) bool {
+			switch x := n.(type) {
+			case *ast.AssignStmt:
+				if len(x.Lhs) == 1 && len(x.Rhs) == 1 && ff.Text(x.Lhs[0]) == "entryData" {
+					if c, ok := x.Rhs[0].(*ast.CallExpr); ok && fg.CalleeName(c) == "make" {
+						madeAt = x.Pos()
+					}
+				}
+			case *ast.CallExpr:
+				switch fg.CalleeName(x) {
+				case "copy":
+					if len(x.Args) == 2 && strings.HasPrefix(ff.Text(x.Args[0]), "entryData[") && ff.Text(x.Args[1]) == "payload" {
+						copyAt = x.Pos()
+					}
+				case "ChecksumIEEE", "Sum32":
+					crcAt = x.Pos()
+				case "tryEnqueue":
+					if len(x.Args) == 1 && ff.Text(x.Args[0]) == "entryData" {
+						enqAt = x.Pos()
+					} else {
+						enqAt = token.Pos(1) // enqueues something else
+					}
+				}
+			}
+			return true
+		})
+		if madeAt == token.NoPos || copyAt == token.NoPos || crcAt == token.NoPos || enqAt == token.NoPos ||
+			!(madeAt < copyAt && copyAt < enqAt && crcAt < enqAt) {
+			return fmt.Errorf("%s: expected `entryData := make(…)`, `copy(entryData[…], payload)` and the CRC-32 before `tryEnqueue(entryData)` (the caller's slice must not be referenced after return)", fn)
+		}
+	}
+
+	// ---- recovery order: findWALFiles sorts the Glob result (name order) with sort.Slice by
+	//      ModTime; comparator strictness decides what happens to files with equal mtimes.
+	recF, findWAL := fg.FindFunc(files, "Recovery", "findWALFiles")
+	if findWAL == nil {
+		return fmt.Errorf("Recovery.findWALFiles not found")
+	}
+	mtimeStrict := -1
+	for _, c := range fg.CallsNamed(findWAL.Body, "Slice") {
+		if len(c.Args) != 2 {
+			continue
+		}
+		fl, ok := c.Args[1].(*ast.FuncLit)
+		if !ok || len(fl.Body.List) == 0 {
+			continue
+		}
+		ret, ok := fl.Body.List[len(fl.Body.List)-1].(*ast.ReturnStmt)
+		if !ok || len(ret.Results) != 1 {
+			continue
+		}
+		switch r := ret.Results[0].(type) {
+		case *ast.CallExpr:
+			if fg.CalleeName(r) == "Before" {
+				mtimeStrict = 1
+			}
+		case *ast.UnaryExpr:
+			if c2, ok := r.X.(*ast.CallExpr); ok && r.Op == token.NOT && fg.CalleeName(c2) == "After" {
+				mtimeStrict = 0
+			}
+		}
+	}
+	if mtimeStrict < 0 {
+		return fmt.Errorf("findWALFiles: sort.Slice comparator ending in `return a.Before(b)` (or `!a.After(b)`) not found: %s", recF.Path)
+	}
+	if len(fg.CallsNamed(findWAL.Body, "Glob")) != 1 {
+		return fmt.Errorf("findWALFiles: filepath.Glob call not found")
+	}
+
 	// ---- ReadAll: the loop `for { entry, err := r.readEntry(f); if err == io.EOF {break}; if err != nil {…; POLICY}; … }`
 	_, readAll := fg.FindFunc(files, "Reader", "ReadAll")
 	if readAll == nil {
@@ -425,6 +499,10 @@ func c06(repo string, out *fg.Out) error {
 	fmt.Fprintf(w, "def envelopeBoundInInt : Bool := true\n")
 	fmt.Fprintf(w, "/-- resolution (ns) of the time in rotate's file name layout; files are opened O_CREATE|O_APPEND -/\n")
 	fmt.Fprintf(w, "def fileNameResolutionNs : Nat := %d\n", nameRes)
+	fmt.Fprintf(w, "/-- AppendRaw/AppendRawWithMeta copy the payload into a fresh entry and checksum it before enqueueing (shape checked) -/\n")
+	fmt.Fprintf(w, "def appendCopiesBeforeEnqueue : Bool := true\n")
+	fmt.Fprintf(w, "/-- findWALFiles' mtime comparator: true = `Before` (strict <), false = `!After` (<=) -/\n")
+	fmt.Fprintf(w, "def mtimeComparatorStrict : Bool := %v\n", mtimeStrict == 1)
 	fmt.Fprintf(w, "end Arc.Generated.C06\n")
 	for k, v := range vals {
 		out.JSON[k] = v
@@ -435,6 +513,8 @@ func c06(repo string, out *fg.Out) error {
 	out.JSON["decode_err_continues"] = decodeCont
 	out.JSON["policy_shape"] = policyShape
 	out.JSON["envelope_bound_in_int"] = true
+	out.JSON["append_copies_before_enqueue"] = true
+	out.JSON["mtime_comparator_strict"] = mtimeStrict == 1
 	out.JSON["file_name_resolution_ns"] = nameRes
 	return nil
 }
